@@ -13,13 +13,16 @@ ArithExact(e) ==
 
 NoPolicyPanic(o) == \A i \in 2..5 : ~IsPanic(o[i])
 
+\* the assigning form of an operator (op=) must give the exact result too whenever it fits
+AltOk(e, x, L) == ("alt" \in DOMAIN e) => \A i \in 1..Len(e.alt) : PlainOk(e.alt[i], x, L)
+
 AcceptArith(e, P) ==
   LET x == ArithExact(e)  L == e.L  o == e.o IN
-  CASE P = "C01" -> WhenFitsOk(o, x, L)
-    [] P = "C02" -> PoliciesOk(o, x, L) /\ (x.zd \/ NoPolicyPanic(o))
+  CASE P = "C01" -> WhenFitsOk(o, x, L) /\ AltOk(e, x, L)
+    [] P = "C02" -> PoliciesOk(o, x, L) /\ (x.zd \/ NoPolicyPanic(o)) /\ AltOk(e, x, L)
     [] P = "C06" -> IF e.op \in {"int", "frac"} /\ LI(L) = 0 THEN TRUE
                     ELSE PlainOk(o[1], x, L) /\ PoliciesOk(o, x, L)
-    [] P = "C07" -> PlainOk(o[1], x, L) /\ PoliciesOk(o, x, L) /\ (x.zd \/ NoPolicyPanic(o))
+    [] P = "C07" -> PlainOk(o[1], x, L) /\ PoliciesOk(o, x, L) /\ (x.zd \/ NoPolicyPanic(o)) /\ AltOk(e, x, L)
 
 (* ------------------------------ C03 ------------------------------------ *)
 HasField(e, f) == f \in DOMAIN e
@@ -63,6 +66,7 @@ AcceptX2F(e) ==
   LET b == FixToFloatBits(ZJ(e.a), LF(e.A), e.ft)
   IN /\ \A i \in 1..5 : ValIs(e.o[i], b)
      /\ e.o[5][3] = 0
+     /\ (("lossy" \in DOMAIN e) => ValIs(e.lossy, b))
 
 (* ------------------------------ C10 ------------------------------------ *)
 AcceptCodec(e) ==
@@ -108,7 +112,7 @@ AcceptFmt(e) ==
 PairSlots(ou, oc, Allowed(_)) ==
   /\ Len(ou) = Len(oc)
   /\ \A i \in 1..Len(ou) : ou[i] = oc[i] \/ (IsPanic(oc[i]) /\ ~IsPanic(ou[i]) /\ Allowed(i))
-SameCall(u, c) == [x \in (DOMAIN u) \ {"pr", "o", "o2", "r", "it"} |-> u[x]] = [x \in (DOMAIN c) \ {"pr", "o", "o2", "r", "it"} |-> c[x]]
+SameCall(u, c) == [x \in (DOMAIN u) \ {"pr", "o", "o2", "r", "it", "alt"} |-> u[x]] = [x \in (DOMAIN c) \ {"pr", "o", "o2", "r", "it", "alt"} |-> c[x]]
 AcceptPair(e) ==
   LET u == e.u  c == e.c IN
   /\ u.k = c.k
@@ -117,6 +121,7 @@ AcceptPair(e) ==
              /\ SameCall(u, c)
              /\ PairSlots(u.o, c.o, LAMBDA i : i = 1 /\ (x.zd \/ ~Fits(x.R, u.L)
                                                        \/ (u.op \in {"int", "frac"} /\ LI(u.L) = 0)))
+             /\ (("alt" \in DOMAIN u) => PairSlots(u.alt, c.alt, LAMBDA i : x.zd \/ ~Fits(x.R, u.L)))
        [] u.k = "conv" ->
              LET x == Exact(ConvR(ZJ(u.a), LF(u.A), LF(u.B))) IN
              /\ SameCall(u, c)
